@@ -167,3 +167,23 @@ Theorem cols2_entry sched n j w : In (j, w) (cols2 sched true n) -> count_sym U 
 Proof. unfold cols2. intro H. apply in_app_iff in H as [H|H].
   - destruct (1 <=? n); [|destruct H]. destruct H as [E|[]]. injection E as <- <-. reflexivity.
   - apply in_map_iff in H as (i & E & Hi). injection E as <- <-. apply in_seq in Hi. apply order2_time. lia. Qed.
+
+(* ---------------- inside one scheduled time: every matching jump once, in listed order ---------------- *)
+From Coq Require Import Sorted.
+Lemma applied_at_spec ms : forall pos p, In p (applied_at ms pos) <-> pos <= p /\ nth_error ms (p - pos) = Some true.
+Proof. induction ms as [|m r IH]; intros pos p; simpl.
+  - split; [tauto|]. intros (_ & H). destruct (p - pos); discriminate.
+  - rewrite in_app_iff, IH. split.
+    + intros [H|(H1 & H2)].
+      * destruct m; [|destruct H]. destruct H as [<-|[]]. rewrite Nat.sub_diag. auto.
+      * split; [lia|]. replace (p - pos) with (S (p - S pos)) by lia. exact H2.
+    + intros (H1 & H2). destruct (Nat.eq_dec p pos) as [->|N].
+      * left. rewrite Nat.sub_diag in H2. simpl in H2. injection H2 as ->. left. reflexivity.
+      * right. split; [lia|]. replace (p - pos) with (S (p - S pos)) in H2 by lia. exact H2. Qed.
+Lemma applied_at_lb ms : forall pos p, In p (applied_at ms pos) -> pos <= p.
+Proof. intros pos p H. apply applied_at_spec in H. tauto. Qed.
+Theorem applied_at_sorted ms : forall pos, StronglySorted lt (applied_at ms pos).
+Proof. induction ms as [|m r IH]; intro pos; simpl; [constructor|]. destruct m; simpl; [|apply IH].
+  constructor; [apply IH|]. apply Forall_forall. intros x Hx. apply applied_at_lb in Hx. lia. Qed.
+Theorem applied_at_complete ms p : In p (applied_at ms 0) <-> nth_error ms p = Some true.
+Proof. rewrite applied_at_spec. rewrite Nat.sub_0_r. split; [tauto|]. intro H. split; [lia|exact H]. Qed.
